@@ -5,9 +5,10 @@ W=/tmp/seed-$P
 CHECKS="${@:-$P}"
 cd $W || exit 3
 echo "== patch"; cat SEED/patch.diff | grep '^[+-]' | grep -v '^+++\|^---' | head -20
-echo "== demo with patch"; /venv/bin/python SEED/demo.py >/tmp/seed-$P.demo_with.txt 2>&1; echo "exit=$?"; tail -3 /tmp/seed-$P.demo_with.txt
+if [ -f SEED/demo.sh ]; then DEMO="sh SEED/demo.sh"; else DEMO="/venv/bin/python SEED/demo.py"; fi
+echo "== demo with patch"; $DEMO >/tmp/seed-$P.demo_with.txt 2>&1; echo "exit=$?"; tail -3 /tmp/seed-$P.demo_with.txt
 git apply -R SEED/patch.diff || { echo "cannot reverse"; exit 3; }
-echo "== demo without patch"; /venv/bin/python SEED/demo.py >/tmp/seed-$P.demo_without.txt 2>&1; echo "exit=$?"; tail -2 /tmp/seed-$P.demo_without.txt
+echo "== demo without patch"; $DEMO >/tmp/seed-$P.demo_without.txt 2>&1; echo "exit=$?"; tail -2 /tmp/seed-$P.demo_without.txt
 git apply SEED/patch.diff
 echo "== test suite with patch"; /venv/bin/python -m pytest -q -p no:cacheprovider --timeout=900 src/target/trx_toolkit 2>&1 | tail -2
 for C in $CHECKS; do
